@@ -97,7 +97,7 @@ __CPROVER_ensures(/* every operand of the (flat, n-ary) union is merged, then th
         Mutant('list_union_stops_after_first_operand', XP, r'(            tempNodeList\.clear\(\);\s*\}\s*)opPos = m_expression\.getNextOpCodePosition\(opPos\);(\s*\}\s*result\.setDocumentOrder\(\);)', r'\1break;\2', expect=None),
         Mutant('number_union_of_fresh_list', XP, r'(double&                 result\) const\s*\{\s*typedef[^;]*;\s*BorrowReturnMutableNodeRefList  resultNodeList\(executionContext\);\s*)Union\(context, opPos, executionContext, \*resultNodeList\);', r'\1', expect=None),
     ],
-    mechanisms=['union operator, all evaluation forms'],
+    mechanisms=['union operator, all evaluation forms', 'union and step merging'],
     assumptions=['the op-code map lays the operands of a union out one after another (getNextOpCodePosition steps from one to the next, ENDOP follows the last); operand positions are modelled with a fixed symbolic stride',
                  'evaluating an operand and merging it (addNodesInDocOrder: units c12_addnode / c12_search) is one stub; XObject::boolean / number / string of a node list are units c11_nodenumber etc.'],
 )
